@@ -197,8 +197,9 @@ impl Interpreter {
                 let first = state.stack.last().cloned().ok_or(InterpreterError::NumberOutOfRange)?;
                 let second = state.stack.get(state.stack.len() - 2).cloned().ok_or(InterpreterError::NumberOutOfRange)?;
 
-                state.stack.push_bytes(first);
+                // x1 x2 -> x1 x2 x1 x2
                 state.stack.push_bytes(second);
+                state.stack.push_bytes(first);
             }
             OpCodes::OP_3DUP => {
                 Interpreter::require_items(state, 3)?;
@@ -206,9 +207,10 @@ impl Interpreter {
                 let second = state.stack.get(state.stack.len() - 2).cloned().ok_or(InterpreterError::NumberOutOfRange)?;
                 let third = state.stack.get(state.stack.len() - 3).cloned().ok_or(InterpreterError::NumberOutOfRange)?;
 
-                state.stack.push_bytes(first);
-                state.stack.push_bytes(second);
+                // x1 x2 x3 -> x1 x2 x3 x1 x2 x3
                 state.stack.push_bytes(third);
+                state.stack.push_bytes(second);
+                state.stack.push_bytes(first);
             }
             OpCodes::OP_2OVER => {
                 Interpreter::require_items(state, 4)?;
@@ -233,10 +235,11 @@ impl Interpreter {
                 let x3 = state.stack.pop_bytes()?;
                 let x4 = state.stack.pop_bytes()?;
 
-                state.stack.push_bytes(x3);
-                state.stack.push_bytes(x4);
+                // popped top first: x1 is the top item. a b c d -> c d a b
+                state.stack.push_bytes(x2);
                 state.stack.push_bytes(x1);
-                state.stack.push_bytes(x2)
+                state.stack.push_bytes(x4);
+                state.stack.push_bytes(x3)
             }
             OpCodes::OP_CAT => {
                 let mut x1 = state.stack.pop_bytes()?;
